@@ -1329,3 +1329,9 @@ mod tests {
         assert!(parse_delimiter("abc").is_err());
     }
 }
+
+// Verification hook: harnesses live outside the repository (see MANIFEST.hooks of the verifier).
+#[cfg(kani)]
+pub(crate) mod verif_kani {
+    include!(concat!(env!("FINDUTILS_VERIF_DIR"), "/harness/xargs.rs"));
+}
